@@ -12,9 +12,11 @@ Correspondence for the lexers: a Python mirror of the two state machines is comp
 driver's token digests; the lexers are compared with gcc / gfortran on samples (thorough tier).
 """
 import hashlib
+import collections
 import itertools
 import json
 import os
+import re
 import subprocess
 import sys
 from concurrent.futures import ThreadPoolExecutor
@@ -265,7 +267,7 @@ def decl_variants(doc, thorough, r):
     if not paths:
         return []
     res = []
-    for opt, val in (("debug", True), ("doxygen", True), ("literalinclude", True), ("show_splicer_comments", True)):
+    for opt, val in (("debug", True), ("doxygen", True), ("literalinclude", True)):
         res.append(("decl-all-%s" % opt, {p: {opt: val} for p in paths if len(p) == 1}))
         k = max(1, len(paths) // 3)
         for j in range(2 if thorough else 1):
@@ -276,7 +278,36 @@ def decl_variants(doc, thorough, r):
         if r.random() < 0.5:
             mix[p] = {o: True for o in ("debug", "doxygen", "literalinclude") if r.random() < 0.5}
     res.append(("decl-mix", mix))
+    # the option on one specific member (first / middle / last) of every overload set
+    sets = overload_sets(doc)
+    if sets:
+        for pos in ("first", "middle", "last"):
+            if pos == "middle" and not any(len(s) > 2 for s in sets):
+                continue
+            for opt in ("literalinclude", "debug", "doxygen"):
+                ed = {}
+                for s in sets:
+                    if pos == "middle" and len(s) <= 2:
+                        continue
+                    ed[s[0] if pos == "first" else s[-1] if pos == "last" else s[len(s) // 2]] = {opt: True}
+                res.append(("decl-ovl-%s-%s" % (pos, opt), ed))
     return res
+
+
+_FNAME = re.compile(r"([A-Za-z_]\w*)\s*\(")
+
+
+def overload_sets(doc):
+    """declaration paths grouped by (scope, function name), groups of two or more"""
+    groups = {}
+    for p, d in walk_decls(doc.get("declarations")):
+        t = d["decl"].strip()
+        if t.split(" ")[0] in ("class", "struct", "enum", "namespace", "typedef", "template", "using"):
+            continue
+        m = _FNAME.search(t)
+        if m:
+            groups.setdefault((p[:-1], m.group(1)), []).append(p)
+    return [g for g in groups.values() if len(g) > 1]
 
 
 def apply_decl_edits(doc, edits, base_off=True):
@@ -359,6 +390,218 @@ def library_items(thorough, r, work):
                     dd["doxygen"]["return"] = "what it returns\nmore\n"
         y = shroudrun.write_yaml(work, "gl%d.yaml" % i, dump_yaml(d))
         items.append(dict(label="gen:gl%d" % i, yaml=y, options=[], language=None, path=[work], text=dump_yaml(d)))
+    return items
+
+
+# ------------------------------------------------------------------ feature libraries: the inputs option-guarded code interacts with
+FEATURES = collections.Counter()
+CPP_PATTERNS = ("none", "same", "first", "last", "differ", "first-two-same")
+SIGS = ["int i", "double d", "const std::string &s", "int i, int j", "long n, double x", "bool flag"]
+
+
+def _cpp_if(pattern, k, n, tag):
+    """cpp_if of member k of an n-member overload set"""
+    if pattern == "none":
+        return None
+    if pattern == "same":
+        return "if defined(HAVE_%s)" % tag
+    if pattern == "first":
+        return "if defined(HAVE_%s_0)" % tag if k == 0 else None
+    if pattern == "last":
+        return "if defined(HAVE_%s_L)" % tag if k == n - 1 else None
+    if pattern == "differ":
+        return "if defined(HAVE_%s_%d)" % (tag, k)
+    return "if defined(HAVE_%s)" % tag if k < 2 else "if defined(HAVE_%s_X)" % tag      # first-two-same
+
+
+def _doxygen(r, what):
+    kind = r.choice(["single", "multi", "multi-no-trailing-newline", "brief-only"])
+    FEATURES["doxygen:" + kind] += 1
+    if kind == "single":
+        return {"brief": "brief of " + what, "description": "one line\n"}
+    if kind == "multi":
+        return {"brief": "brief of %s\nsecond brief line" % what, "description": "line one\nline two\n",
+                "return": "what it returns\nmore\n"}
+    if kind == "multi-no-trailing-newline":
+        return {"brief": "brief of " + what, "description": "no trailing newline\nsecond line", "return": "value"}
+    return {"brief": "brief of " + what}
+
+
+def _overload_set(r, base, tag, ret="void"):
+    n = r.choice([2, 3, 3, 4])
+    sigs = r.sample(SIGS, n)
+    pattern = r.choice(CPP_PATTERNS)
+    FEATURES["overload-set"] += 1
+    FEATURES["overload-cpp_if:" + pattern] += 1
+    out = []
+    for k, sg in enumerate(sigs):
+        d = {"decl": "%s %s(%s)" % (ret, base, sg)}
+        c = _cpp_if(pattern, k, n, tag)
+        if c:
+            d["cpp_if"] = c
+        if r.random() < 0.4:
+            d["doxygen"] = _doxygen(r, base)
+        out.append(d)
+    return out
+
+
+def gen_feature_lib(r, name):
+    """A C++ library description built from the features that option-guarded emitter code touches: overload
+    sets whose members carry equal / partly equal / different / no cpp_if, fortran_generic, default-argument
+    generics, classes (with cpp_if) holding overloaded methods, doxygen text blocks of several shapes,
+    per-declaration splicers."""
+    from tools.gen import libgen
+    decls = []
+    for i in range(r.randrange(1, 4)):
+        d = libgen.gen_function(r, "c++", "plain%d" % i)
+        if r.random() < 0.5:
+            d["doxygen"] = _doxygen(r, "plain%d" % i)
+        if r.random() < 0.3:
+            d["cpp_if"] = "if defined(HAVE_PLAIN%d)" % i
+            FEATURES["function-cpp_if"] += 1
+        if r.random() < 0.3:
+            d["splicer"] = {"c": ["// user body", "user_body_%d();" % i], "f": ["! user body", "call user_body_%d()" % i]}
+            FEATURES["decl-splicer"] += 1
+        decls.append(d)
+    for s in range(r.randrange(1, 3)):
+        decls += _overload_set(r, "ovl%d" % s, "OVL%d" % s)
+    if r.random() < 0.7:
+        d = {"decl": "double genreal(double arg)", "fortran_generic": [
+            {"decl": "(float arg)", "function_suffix": "_float"}, {"decl": "(double arg)", "function_suffix": "_double"}]}
+        if r.random() < 0.5:
+            d["cpp_if"] = "if defined(HAVE_GENREAL)"
+        if r.random() < 0.5:
+            d["doxygen"] = _doxygen(r, "genreal")
+        FEATURES["fortran_generic"] += 1
+        decls.append(d)
+    if r.random() < 0.7:
+        d = {"decl": "int dflt(int a, int b = 1, double c = 2.5)"}
+        if r.random() < 0.5:
+            d["cpp_if"] = "if defined(HAVE_DFLT)"
+        if r.random() < 0.4:
+            d["default_arg_suffix"] = ["_a", "_ab", "_abc"]
+        FEATURES["default-arg-generic"] += 1
+        decls.append(d)
+    if r.random() < 0.7:
+        cname = "Cls%d" % r.randrange(9)
+        inner = [{"decl": "%s()" % cname}, {"decl": "~%s()" % cname}]
+        inner += _overload_set(r, "meth", cname.upper(), ret="int")
+        inner.append(libgen.gen_function(r, "c++", "single", in_class=True))
+        c = {"decl": "class " + cname, "declarations": inner}
+        if r.random() < 0.5:
+            c["cpp_if"] = "if defined(HAVE_%s)" % cname.upper()
+            FEATURES["class-cpp_if"] += 1
+        FEATURES["class"] += 1
+        decls.append(c)
+    r.shuffle(decls) if r.random() < 0.3 else None
+    return {"library": name, "cxx_header": name + ".hpp", "language": "c++",
+            "options": {"wrap_python": r.random() < 0.6, "wrap_lua": r.random() < 0.4}, "declarations": decls}
+
+
+_MARK = re.compile(r"^\s*(?://|!) splicer begin (\S+)\s*$", re.M)
+
+
+def splicer_lang(fn):
+    if fn.endswith(F_EXT):
+        return "f"
+    if not fn.endswith(C_EXT):
+        return None
+    if fn.startswith("py"):
+        return "py"
+    if fn.startswith("lua"):
+        return "lua"
+    return "c"
+
+
+def harvest_markers(item, work, tag):
+    """names of the splicer blocks Shroud offers for this library: [(lang, dotted name)] (one run, markers on)"""
+    out = os.path.join(work, "harvest_" + tag)
+    os.makedirs(out, exist_ok=True)
+    spec = dict(yaml=item["yaml"], language=item["language"], options=item["options"], path=item["path"],
+                variants=[dict(outdir=out, options=["show_splicer_comments=true"], write_version=False, yaml_text=None)])
+    excs = run_worker(spec)
+    found = []
+    if excs[0] is None:
+        for fn, data in sorted(shroudrun.read_tree(out, skip_ext=SKIP_EXT).items()):
+            lang = splicer_lang(os.path.basename(fn))
+            if lang:
+                for m in _MARK.finditer(data.decode("utf-8", "replace")):
+                    if (lang, m.group(1)) not in found:
+                        found.append((lang, m.group(1)))
+    common.rmtree(out)
+    return found
+
+
+def add_user_splicers(doc, markers, r, work, tag):
+    """User code for a random part of the harvested blocks: `splicer_code` entries (some with an empty body)
+    and one splicer file per language.  Returns the new document."""
+    doc = json.loads(json.dumps(doc))
+    chosen = [m for m in markers if r.random() < 0.35]
+    files = {}
+    code = doc.get("splicer_code") if isinstance(doc.get("splicer_code"), dict) else {}
+    n = 0
+    for lang, name in chosen:
+        n += 1
+        kind = r.choice(["empty", "one", "two", "file", "file"])
+        if kind == "file" and isinstance(doc.get("splicer"), dict) and lang in doc["splicer"]:
+            kind = "one"      # the library's own splicer file may hold the block already (a repeated block is an error)
+        if lang == "f":
+            body = [] if kind == "empty" else ["call user_code_%d()" % n] + (["! and a comment", "x_user = %d" % n] if kind == "two" else [])
+        else:
+            body = [] if kind == "empty" else ["user_code_%d();" % n] + (["// and a comment", "x_user = %d;" % n] if kind == "two" else [])
+        if kind == "file":
+            files.setdefault(lang, []).append((name, body))
+            FEATURES["splicer-file-block:" + lang] += 1
+            continue
+        parts = name.split(".")
+        d = code.setdefault(lang, {})
+        ok = isinstance(d, dict)
+        for p in parts[:-1]:
+            if not ok:
+                break
+            d = d.setdefault(p, {})
+            ok = isinstance(d, dict)
+        if ok and parts[-1] not in d:
+            d[parts[-1]] = body
+            FEATURES["splicer_code:%s%s" % (lang, ":empty" if not body else "")] += 1
+    if code:
+        doc["splicer_code"] = code
+    for lang, blocks in files.items():
+        lead = "!" if lang == "f" else "//"
+        fn = "%s_user_splicer_%s.%s" % (tag, lang, "f" if lang == "f" else "c")
+        with open(os.path.join(work, fn), "w") as f:
+            for name, body in blocks:
+                f.write("%s splicer begin %s\n%s%s splicer end %s\n\n" % (lead, name, "".join(b + "\n" for b in body), lead, name))
+        sp = doc.get("splicer") if isinstance(doc.get("splicer"), dict) else {}
+        sp[lang] = list(sp.get(lang) or []) + [fn]
+        doc["splicer"] = sp
+        FEATURES["splicer-file"] += 1
+    return doc
+
+
+def feature_items(thorough, r, work, corpus_items):
+    """generated feature libraries and corpus libraries, each with user splicers for harvested block names"""
+    cands = []
+    for i in range(10 if thorough else 4):
+        d = gen_feature_lib(r, "fl%d" % i)
+        y = shroudrun.write_yaml(work, "fl%d_0.yaml" % i, dump_yaml(d))
+        cands.append((dict(label="gen:fl%d" % i, yaml=y, options=[], language=None, path=[work]), d, "fl%d" % i))
+    for it in corpus_items:
+        doc = load_yaml(it["yaml"])
+        if isinstance(doc, dict) and isinstance(doc.get("declarations"), list):
+            cands.append((it, doc, it["label"].replace("-", "_") + "_spl"))
+    with ThreadPoolExecutor(12) as ex:
+        marks = list(ex.map(lambda c: harvest_markers(c[0], work, c[2]), cands))
+    items = []
+    for (it, doc, tag), mk in zip(cands, marks):
+        if not mk:
+            continue
+        FEATURES["splicer-blocks-offered"] += len(mk)
+        doc2 = add_user_splicers(doc, mk, r, work, tag)
+        y = shroudrun.write_yaml(work, tag + ".yaml", dump_yaml(doc2))
+        label = it["label"] if it["label"].startswith("gen:") else it["label"] + "+splicers"
+        items.append(dict(label=label, yaml=y, options=it["options"], language=it["language"],
+                          path=[work] + [p for p in it["path"] if p != work], text=dump_yaml(doc2)))
     return items
 
 
@@ -648,9 +891,22 @@ def run(ctx):
         for i, case in enumerate(corpus_lib_cases()):
             item, spec, names = plan_corpus_case(case, work, i)
             jobs.append((item, spec, names))
-        for item in library_items(thorough, r, work):
+        FEATURES.clear()
+        items = library_items(thorough, r, work)
+        items += feature_items(thorough, r, work, [i for i in items if not i["label"].startswith("gen:")])
+        for item in items:
             spec, names = plan_variants(item, thorough, r, work)
             jobs.append((item, spec, names))
+            for n in names:
+                FEATURES["variant:" + re.sub(r"\d+", "", n.split("+")[0] if n.startswith("decl") else ("combo" if "+" in n else n))] += 1
+            doc = load_yaml(item["yaml"])
+            if isinstance(doc, dict):
+                FEATURES["lib-overload-sets"] += len(overload_sets(doc))
+                for _p, d in walk_decls(doc.get("declarations")):
+                    for k in ("cpp_if", "doxygen", "fortran_generic", "splicer"):
+                        if k in d:
+                            FEATURES["decl-with-" + k] += 1
+        ctx.note("feature_distribution", dict(sorted(FEATURES.items())))
         with ThreadPoolExecutor(12) as ex:
             results = list(ex.map(lambda j: run_worker(j[1]), jobs))
         npairs = 0
